@@ -3,3 +3,4 @@ import os, sys
 REPO = os.environ.get('VERIF_REPO', '/repo')
 if REPO not in sys.path:
     sys.path.insert(0, REPO)
+from . import drawpin  # noqa: E402  (pins random.getrandbits before beartype is imported)
